@@ -17,6 +17,7 @@ package main
 
 import (
 	"fmt"
+	"os"
 	"strings"
 
 	"github.com/osteele/liquid"
@@ -339,6 +340,9 @@ func parseCase(r *Run, delimsF, src, caseLine string, syms []sym, renderCheck bo
 		cfg.Delims = delims
 		root, err := cfg.Parse(src, loc)
 		if err != nil {
+			if root != nil {
+				r.Violate("C06", "error-returns-no-tree", caseLine, fmt.Sprintf("template %q: Parse returned both an error and a tree", src))
+			}
 			return fmt.Sprintf("err %s %d", parseErrKind(err), err.LineNumber())
 		}
 		var sb strings.Builder
@@ -374,6 +378,17 @@ func parseCase(r *Run, delimsF, src, caseLine string, syms []sym, renderCheck bo
 	if implOK != (wn && objsOK) {
 		r.Violate("C06", "accepts-iff-well-nested", caseLine,
 			fmt.Sprintf("template %q: implementation says %q, the nesting grammar says well-nested=%v objects-valid=%v", src, res, wn, objsOK))
+	}
+	if !implOK && renderCheck && hashString(src)%8 == 0 {
+		// a rejected template renders nothing (sampled: the engine parses the source a second time)
+		var got string
+		var gerr error
+		if guard(func() string { got, gerr = parseEngine.ParseAndRenderString(src, parseBindings); return "" }) == "panic" {
+			r.Violate("C06", "rejected-renders-nothing", caseLine, "ParseAndRenderString panicked: "+lastPanic)
+		} else if gerr == nil || got != "" {
+			r.Violate("C06", "rejected-renders-nothing", caseLine, fmt.Sprintf("template %q is rejected by Parse but ParseAndRenderString returned %q, error %v", src, got, gerr))
+		}
+		r.Count("rejected-render-checked")
 	}
 	if implOK && wn && renderCheck {
 		var want strings.Builder
@@ -660,7 +675,9 @@ func parseStream(r *Run) {
 			r.Count("verdict=" + f[0])
 		}
 		if hasBlockSyntax(seq) {
-			r.Nontrivial(cl)
+			// enumerated sequences are pairwise distinct: a short key (the source, which determines
+			// the sequence) keeps the distinct-count map small
+			r.Nontrivial(src)
 		}
 		r.Emit(cl, res)
 	}
@@ -687,7 +704,12 @@ func parseStream(r *Run) {
 	a22, a12 := alphabet22(), alphabet12()
 	n22, n22oracle, n12, n12oracle := 4, 0, 5, 0
 	if r.Tier == "thorough" {
-		n22, n22oracle, n12, n12oracle = 5, 6, 6, 7
+		n22, n12, n12oracle = 5, 6, 7
+		// 22^6 = 113 379 904 sequences, oracle only: about 40 us of CPU each (roughly 75 CPU-minutes,
+		// 5 minutes of wall time on 16 idle cores) -- opt-in
+		if os.Getenv("VERIF_C06_FULL") != "" {
+			n22oracle = 6
+		}
 	}
 	for n := 0; n <= n22; n++ {
 		enumSeqs(a22, n, func(seq []sym) { emitSeq(seq, "exhaustive22") })
